@@ -191,6 +191,9 @@ impl Client {
                     if let Some(search) = current_search.take() {
                         search.wait_cancel();
                     }
+
+                    // Also forget what earlier commands collected from finished searches
+                    previous_artifact = None;
                 }
                 Some((&"quit", _)) => break,
                 Some((&".state", _)) => {
